@@ -161,12 +161,21 @@ def run(ch, ctx, fault=None):
                               "native_anim_max_bytes_not_one_global_value",
                               dict(inf, got=obj.native_anim_max_bytes, expected=namb[0]), "read")
 
-        def render_check(n, obj, own, desc, override=None):
+        def render_check(n, obj, own, desc, override=None, via_draw=False):
             if n.family == "block":
                 return
-            eff = override or inst_effective(n, own, "method")
+            eff = override.lower() if override else inst_effective(n, own, "method")
             try:
-                render = format(obj, "+" + override[0].upper()) if override else str(obj)
+                if via_draw:
+                    # per-call override as a draw() argument (any letter case is documented
+                    # as accepted); the bytes go to the simulated stdout
+                    n0 = len(w.out.sink)
+                    kw = {"method": override} if override else {}
+                    obj.draw(pad_height=1, check_size=False, **kw)
+                    w.out.drain()
+                    render = bytes(w.out.sink[n0:]).decode()
+                else:
+                    render = format(obj, "+" + override[0].upper()) if override else str(obj)
             except Exception as e:
                 raise Violation("render_raised", {"exc": repr(e), "class": n.name}, "render")
             cmds = count_commands(render, n.family)
@@ -352,9 +361,15 @@ def run(ch, ctx, fault=None):
                         raise Violation("instance_construction_failed",
                                         {"class": n.name, "exc": repr(e)}, "render")
                     who = "%s()" % n.name
-                override = ch.pick("override", (None, None, "lines", "whole"))
-                desc = "render %s%s" % (who, " with method=%s" % override if override else "")
-                render_check(n, obj, own, desc, override)
+                via_draw = ch.bool("via_draw", 0.4)
+                if via_draw:
+                    override = ch.pick("override_d", (None, "lines", "LINES", "Lines", "whole",
+                                                      "WHOLE", "Whole"))
+                else:
+                    override = ch.pick("override", (None, None, "lines", "whole"))
+                desc = "%s %s%s" % ("draw" if via_draw else "render", who,
+                                    " with method=%s" % override if override else "")
+                render_check(n, obj, own, desc, override, via_draw)
             ctx.op(desc)
             key.append(desc)
             read_all(desc)
